@@ -37,6 +37,7 @@ type ShardedJob struct {
 	Deadline time.Time     // soft deadline for the whole job (zero = none)
 	Workers  int
 	MemLimit uint64 // bytes of address space per worker (0 = 6 GiB)
+	each     func(i int, r CaseResult)
 }
 
 type ShardStats struct {
@@ -75,6 +76,12 @@ func (j *ShardedJob) Execute(rep *Reporter) ShardStats {
 		j.worker(shard, of, from)
 		os.Exit(0)
 	}
+	return j.parent(rep)
+}
+
+// ExecuteCollect is Execute for the parent side with a callback for every case result.
+func (j *ShardedJob) ExecuteCollect(rep *Reporter, each func(i int, r CaseResult)) ShardStats {
+	j.each = each
 	return j.parent(rep)
 }
 
@@ -203,6 +210,10 @@ func (j *ShardedJob) superviseOne(shard, of, from int, rep *Reporter, st *ShardS
 					rep.Report(v)
 				}
 				mu.Lock()
+				if j.each != nil {
+					idx, _ := strconv.Atoi(sp[1])
+					j.each(idx, res)
+				}
 				st.Done++
 				for k, v := range res.Counters {
 					st.Counters[k] += v
@@ -210,7 +221,7 @@ func (j *ShardedJob) superviseOne(shard, of, from int, rep *Reporter, st *ShardS
 				if res.Outcome != "" {
 					st.Outcomes[res.Outcome]++
 				}
-				if res.Sample != "" && len(st.Samples) < 10 {
+				if res.Sample != "" && len(st.Samples) < 10 && j.each == nil {
 					st.Samples = append(st.Samples, res.Sample)
 				}
 				mu.Unlock()
